@@ -152,7 +152,7 @@ impl Cfg {
 
 /// counting wrapper around the dominance checker
 struct MonDom<'a, S> { inner: &'a (dyn DominanceChecker<State = S> + Send + Sync), queries: std::sync::atomic::AtomicU64, dominated: std::sync::atomic::AtomicU64 }
-impl<S> DominanceChecker for MonDom<'_, S> {
+impl<S: std::fmt::Debug + Send + Sync + 'static> DominanceChecker for MonDom<'_, S> {
     type State = S;
     fn clear_layer(&self, depth: usize) { self.inner.clear_layer(depth) }
     fn is_dominated_or_insert(&self, state: Arc<S>, depth: usize, value: isize) -> DominanceCheckResult {
@@ -160,7 +160,10 @@ impl<S> DominanceChecker for MonDom<'_, S> {
         // the dominance store is shared by the workers: a yield point of the controlled scheduler (with the cache yields)
         crate::sched::yield_point(crate::sched::Y_DOMINANCE);
         let r = self.inner.is_dominated_or_insert(state.clone(), depth, value);
-        if dbg.is_some() { eprintln!("  dom query depth={depth} value={value} -> dominated={} thr={:?}  [state ptr {:p}]", r.dominated, r.threshold, Arc::as_ptr(&state)); }
+        if dbg.is_some() {
+            let pot = crate::monitor::get_ctx::<S>().and_then(|c| c.oracle.hstar(state.as_ref(), depth)).map(|h| h + value);
+            eprintln!("  dom query depth={depth} value={value} potential={pot:?} -> dominated={} thr={:?}  [state {:?}]", r.dominated, r.threshold, state);
+        }
         self.queries.fetch_add(1, AO::Relaxed);
         if r.dominated { self.dominated.fetch_add(1, AO::Relaxed); }
         r
